@@ -195,7 +195,7 @@ class Direction(Sub):
                     raise Known("K-C05-1", "direction decided on wall-clock order")
                 raise Violation("direction marker does not match the order of the two instants", got=s, expected_marker=exp, a=str(a), b=str(b))
         if wall_order != inst_order:
-            raise Skip("same-zone pair whose wall order differs from instant order (K-C05-1 region): magnitude not asserted")
+            raise Skip("same-zone pair whose wall order differs from instant order: the calendar breakdown is outside C06's stated domain, magnitude not asserted (direction is)")
         lo, hi = (a, b) if u1 <= u2 else (b, a)
         wl, wh = D.datetime(*T.fields(lo)), D.datetime(*T.fields(hi))
         elapsed = abs(u2 - u1)
